@@ -8,7 +8,8 @@
                  do_merge pass the crate performs is validated with [valid_merge]
                  (translation validation: centroid dumps before/after), the validated result
                  is adopted, and every rank / quantile / cdf / pmf answer of the crate is
-                 compared with the exact Q model within 1e-9 (bits -> exact Q);
+                 compared with the exact Q model within 1e-9 (bits -> exact Q) -- quantile answers
+                 only for ranks q whose product q * total is exact in binary64 (see exact_product);
    * [prop_ok] : oracle 0 -- property C10 evaluated on the crate's observations alone;
    * [c15_ok]  : oracle 2 -- property C15 (structural part + the 2k+30 threshold test) on
                  the crate's centroid dumps;
@@ -235,6 +236,23 @@ Fixpoint rank_mut (m : mslot) (xs : list Q) (obs : list Z) : option (mslot * boo
 Definition answers (f : Q -> outcome (option Q)) (scale : Q) (xs : list Q) (obs : list Z) : bool :=
   all2 (fun x ob => match f x with Ok r => ans_close scale r ob | _ => false end) xs obs.
 
+(* quantile(q) starts with weight = q * total in binary64 and then branches on it; the function has
+   genuine jumps (weight = 1, weight = total - 1, around unit-weight centroids), so when that product is
+   ROUNDED the crate may legitimately sit on the other side of a jump than the exact model evaluated at
+   the same double q.  The exact comparison is therefore made only when q * total is exactly
+   representable (odd part of the numerator below 2^53, denominator a power of two: always the case for
+   the dyadic grids); for every other q only the PROPERTY oracle (prop_ok: range, end values,
+   monotonicity, rank(quantile q) bound) speaks. *)
+Definition exact_product (q : Q) (total : Z) : bool :=
+  let p := Qred (q * inject_Z total) in
+  let n := Z.abs (Qnum p) in
+  let d := Zpos (Qden p) in
+  (Z.land d (d - 1) =? 0) && ((n =? 0) || (n / Z.land n (- n) <? 2 ^ 53)).
+
+Definition answers_where (sel : Q -> bool) (f : Q -> outcome (option Q)) (scale : Q) (xs : list Q) (obs : list Z) : bool :=
+  all2 (fun x ob => if sel x then match f x with Ok r => ans_close scale r ob | _ => false end
+                    else negb (ob =? NONE)) xs obs.
+
 Definition list_answer (scale : Q) (r : outcome (option (list Q))) (obs : list Z) : bool :=
   match r with
   | Ok None => list_eqb Z.eqb obs [NONE]
@@ -310,7 +328,7 @@ Definition tie_step (st : mslots) (o : zop) (ob : list Z) : option (mslots * boo
                      let v := td_view d in
                      let st' := if (mode =? 0) && negb (match qs with [] => true | _ => false end)
                                 then mput st slot d None else st in
-                     Some (st', answers (quantile v) (view_scale v) qs ob)
+                     Some (st', answers_where (fun q => exact_product q (v_total v)) (quantile v) (view_scale v) qs ob)
                  end
              end
          end
